@@ -19,7 +19,8 @@ RULE = ("Histories over {learn(snet, router, dnets), forget-router(snet, router)
         "on either port; knowledge is per (attached network, destination); traffic must leave on a network that knows a next hop, toward "
         "that router). Non-trivial: history in which a learn displaces another router, or a deletion/renumbering follows a learn. "
         "Distinct by the operation sequence."
-        " Also: requests sent while the history is going on (each must have left exactly once when its network is known); routed network-layer messages as learning events.")
+        " Also: requests sent while the history is going on (each must have left exactly once when its network is known); routed network-layer messages as learning events."
+        " Announcements naming a network the node is itself attached to. One reduced copy of a generated shard runs with the library's debug tracing switched on (label tracing-on).")
 ASSUMPTIONS = [
     "renumbering onto a number already in use is excluded (two ports with one network number violate a BACnet invariant)",
     "index agreement reads RouterInfoCache.routers / path_info (the state named in the property's anchors); if those attributes "
